@@ -31,7 +31,7 @@ import (
 type Spoof struct {
 	AtMS   int    `json:"at_ms"`
 	Target string `json:"target"` // rtp | rtcp (of the side that receives media: the client when playing, the server when recording)
-	Src    string `json:"src"`    // other-ip | other-ip-same-port | same-ip-other-port | mapped-other-ip
+	Src    string `json:"src"`    // other-ip | other-ip-same-port | same-ip-other-port | mapped-other-ip | v6-prefix | v6-compat | v6-nat64 (IPv6 addresses built from the bytes of the negotiated IPv4 one)
 	Count  int    `json:"count"`
 }
 
@@ -74,6 +74,10 @@ func gen(seed uint64, tier string) Scenario {
 			sp := Spoof{AtMS: r.Range(50, 1500), Count: r.Range(1, 20)}
 			sp.Target = []string{"rtp", "rtp", "rtcp"}[r.Intn(3)]
 			sp.Src = []string{"other-ip", "other-ip-same-port", "same-ip-other-port", "mapped-other-ip"}[r.Intn(4)]
+			// hash-derived so that no other choice of the scenario moves
+			if x := core.HS(seed, "c19.v6src", "", uint64(len(sc.Spoofs))); x%100 < 30 {
+				sp.Src = []string{"v6-prefix", "v6-compat", "v6-nat64"}[(x>>8)%3]
+			}
 			sc.Spoofs = append(sc.Spoofs, sp)
 		}
 		if r.Bool(0.4) {
@@ -470,6 +474,21 @@ func run(t *testing.T, sc Scenario) *core.Result {
 					}
 				case "mapped-other-ip":
 					from = &net.UDPAddr{IP: net.ParseIP("::ffff:10.0.0.66"), Port: legit.Port}
+				case "v6-prefix", "v6-compat", "v6-nat64":
+					// IPv6 addresses that merely contain the bytes of the negotiated IPv4 address
+					// (aabb:ccdd::, ::a.b.c.d, 64:ff9b::a.b.c.d), with the negotiated port: other hosts
+					v4 := legit.IP.To4()
+					ip := make(net.IP, 16)
+					switch sp.Src {
+					case "v6-prefix":
+						copy(ip, v4)
+					case "v6-compat":
+						copy(ip[12:], v4)
+					default:
+						copy(ip, []byte{0, 0x64, 0xff, 0x9b})
+						copy(ip[12:], v4)
+					}
+					from = &net.UDPAddr{IP: ip, Port: legit.Port}
 				}
 				for k := 0; k < sp.Count; k++ {
 					var b []byte
